@@ -136,6 +136,27 @@ def run(tier, rng, C):
         if len(set(toks)) != len(toks):
             fails.append("pkce n=%d: repeated values among %d draws" % (n, draws))
         fails += overlap_check(raws, "pkce n=%d" % n)
+    # every byte position of every requested size takes (about) all 256 values over 3000 draws (a position that is a
+    # function of too little randomness - a digest of one or two bytes, a masked or clamped byte - shows 160-odd or fewer);
+    # the same through the RELEASE build of harness + crate, where debug assertions are compiled out
+    pos_lines = ["RANDPOS csrf %d 3000" % n for n in range(1, 97)] + ["RANDPOS pkce %d 3000" % n for n in range(32, 97)]
+    ok_rel, out_rel = C.build_harness("harness", release=True)
+    if not ok_rel:
+        raise RuntimeError("release build of the harness failed: " + out_rel[-2000:])
+    for build, binary in (("debug", C.IMPL_BIN[0]), ("release", C.HARNESS_BIN_RELEASE)):
+        for l, o in zip(pos_lines, C.run_lines(binary, pos_lines)):
+            ws = o.split(" ")
+            if ws[0] != "ok":
+                fails.append("%s build: %s answered %s" % (build, l, o[:80]))
+                continue
+            per = [int(x) for x in ws[1].split(",")] if ws[1] != "." else []
+            low = [(i, d) for i, d in enumerate(per) if d < 250]
+            if low:
+                fails.append("%s build: %s: byte position(s) %s show only that many distinct values over 3000 draws (256 expected)" % (build, l, low[:4]))
+            nbytes = int(l.split(" ")[2])
+            if nbytes >= 4 and int(ws[2]) != 3000:
+                fails.append("%s build: %s: only %s distinct values among 3000 draws" % (build, l, ws[2]))
+    stats["per_position_value_coverage_draws"] = 3000 * len(pos_lines) * 2
     # ONE thread, requested sizes and the two generators mixed in random order: every value still has
     # exactly its own length and shares nothing with its neighbours
     mixed = []
